@@ -1,6 +1,6 @@
 CLAIM = ("Verdict of check/extract <=> (decoded length == recorded length AND CRC-16 == recorded CRC [AND all writes complete]) "
          "with a scripted nondeterministic decoder under the real reader/basic-reader/decoder/CRC code; burst-error detection of the "
-         "real CRC routine for bursts <= 16 bits; exit-status aggregation over members.")
+         "real CRC routine for bursts <= 16 bits; exit-status aggregation over members and in main(); a preceding operation on the same member does not lend its result.")
 ASSUMPTIONS = ["arch layer, stdio and header parser are stubs (arbitrary results)", "MacBinary members are excluded from verdict.* (os_type != 'm')"]
 R = ["lib/lha_reader.c", "lib/lha_basic_reader.c", "lib/lha_decoder.c", "lib/crc16.c"]
 X = ["lib/lha_basic_reader.c", "lib/lha_decoder.c", "lib/crc16.c"]
